@@ -14,13 +14,16 @@ theorem parseDescription_adv {s s' : PS} {d : List String} (h : parseDescription
   obtain ⟨a1, _, _⟩ := consume_post h1
   split at h
   · cases h
-  · split at h
+  · rename_i c0 hc0
+    split at h
     · cases h
-    · cases h
-      exact ⟨_, a1.trans Adv.of_pos⟩
+    · rename_i sk c' rest' hsk
+      cases h
+      obtain ⟨pre, hp⟩ := skipText_spec _ _ _ _ _ _ hsk
+      exact ⟨_, a1.trans (Adv.of_suffix hc0 hp)⟩
 
 theorem parseExample_adv {s s' : PS} {e : Example} (h : parseExample s = .ok (e, s')) :
-    ∃ new, Adv s s' new := by
+    ∃ new, Adv s s' new ∧ new ≠ [] := by
   unfold parseExample at h
   simp only [bind_ok, Prod.exists] at h
   obtain ⟨c1, s1, h1, db, s2, h2, acc, s3, h3, c4, s4, h4, v, s5, h5, c6, s6, h6, comp, s7, h7, h⟩ := h
@@ -31,27 +34,19 @@ theorem parseExample_adv {s s' : PS} {e : Example} (h : parseExample s = .ok (e,
   obtain ⟨_, a5, _, _⟩ := consumeInt_post h5
   obtain ⟨a6, _, _⟩ := consume_post h6
   have a7 : Adv s6 s7 [] := by
+    unfold skipFree at h7
     split at h7
     · cases h7; exact Adv.refl _
-    · split at h7
+    · rename_i c0 hc0
+      split at h7
       · cases h7
-      · cases h7; exact Adv.of_pos
-  have hs : s' = s7 := by
-    split at h
-    · split at h
-      · cases h
-      · split at h
-        · cases h
-        · split at h
-          · cases h
-          · split at h
-            · cases h
-            · split at h
-              · cases h
-              · cases h; rfl
-    · cases h
-  subst hs
-  exact ⟨_, (((((a1.trans a2).trans a3).trans a4).trans a5).trans a6).trans a7⟩
+      · rename_i sk c' rest' hsk
+        cases h7
+        obtain ⟨pre, hp⟩ := skipText_spec _ _ _ _ _ _ hsk
+        exact Adv.of_suffix hc0 hp
+  obtain ⟨e', _, h⟩ := h
+  cases h
+  exact ⟨_, (((((a1.trans a2).trans a3).trans a4).trans a5).trans a6).trans a7, by simp⟩
 
 theorem examplesLoop_adv (fuel : Nat) : ∀ {acc : List Example} {s s' : PS} {ex : List Example},
     examplesLoop fuel acc s = .ok (ex, s') → ∃ new, Adv s s' new := by
@@ -65,7 +60,7 @@ theorem examplesLoop_adv (fuel : Nat) : ∀ {acc : List Example} {s s' : PS} {ex
     · split at h
       · simp only [bind_ok, Prod.exists] at h
         obtain ⟨e, s1, h1, h⟩ := h
-        obtain ⟨n1, a1⟩ := parseExample_adv h1
+        obtain ⟨n1, a1, _⟩ := parseExample_adv h1
         obtain ⟨n2, a2⟩ := ih h
         exact ⟨_, a1.trans a2⟩
       · cases h; exact ⟨_, Adv.refl _⟩
@@ -272,7 +267,7 @@ def ruleOkW (cfg : Cfg) (r : Rule) : Prop :=
 theorem parseRule_post {cfg : Cfg} {s s' : PS} {r : Rule} (h : parseRule cfg s = .ok (r, s'))
     (inv : SupInv s.rules) :
     ∃ new, Adv s s' new ∧ ruleOkW cfg r ∧ supOk s.rules r = true ∧ Recorded s'.consumed r := by
-  unfold parseRule at h
+  unfold parseRule parseRuleWith at h
   simp only [bind_ok, Prod.exists] at h
   obtain ⟨name, cat, s1, h1, d, ex, rel, sup, s2, h2, cut, nb, s3, h3, c4, s4, h4, subs, s5, h5,
     conds, h6, ext, s6, h7, u, h8, h⟩ := h
